@@ -78,7 +78,11 @@ def run(chk):
         if clo[0] == "agg" and clo[1].get("ak") == "closure":
             cb = P.body(clo[1]["def"])
             ro = cb.origin(0, through_calls=("as_ref",))
-            nm = ro[1] if ro[0] == "capture" else (mir.o_field_path(ro)[1] or [None])[-1]
+            if ro[0] == "capture":
+                src, _sb = common.capture_source(P, cb, ro)
+                nm = (mir.o_field_path(src)[1] or [None])[-1]   # the field of self that was captured, not the capture's name
+            else:
+                nm = (mir.o_field_path(ro)[1] or [None])[-1]
             if "default" not in str(nm):
                 return False, "the fallback for unleveled events is %s, not self.default" % o_str(ro), [], cb.span
         uo = [c for c in b.calls(normal_only=True) if c.callee.get("name") == "unwrap_or"]
